@@ -1,10 +1,10 @@
 package main
 
 import (
-	"net/url"
 	"encoding/json"
 	"fmt"
 	"hash/fnv"
+	"net/url"
 	"sync"
 	"sync/atomic"
 	"time"
